@@ -384,6 +384,12 @@ pub fn run_one(cfg: &ForestCfg, run_index: u64, run_seed: u64, known: &KnownFile
                     queued.extend(ops);
                 }
             }
+            if prof.w_storewide > 0 && rng.pct(1) {
+                if let Some(ops) = gen::gen_space_motif(&w.model, &mut rng, &clients[c].home) {
+                    stats.inc("probe/xml_space_motif");
+                    queued.extend(ops);
+                }
+            }
             if prof.flip_pm > 0 && rng.pct(3) {
                 if let Some(ops) = gen::gen_split_text_motif(&w.model, &mut rng, &clients[c].home) {
                     stats.inc("probe/split_text_motif");
